@@ -287,6 +287,15 @@ pub fn gen_case(t: &mut Tape) -> (Script, LifePlan) {
     let life = LifePlan { oneshot: t.chance(1, 6), checks: 1 + t.choose(3), crash_at: None, wall_at_start: None };
     let mut script = gen_script(t, &profile());
     script.metrics_fail = false;
+    // the wall clock may be corrected (either way) while the machine runs
+    if t.chance(1, 3) {
+        let base = script.start_wall_ns;
+        for step in script.clock.iter_mut() {
+            if t.chance(1, 4) {
+                step.wall_jump = Some(base + *t.pick(&[86_400_000_000_000i128, -7_200_000_000_000, 3_600_000_000_000, 5_000_000_000]));
+            }
+        }
+    }
     if t.flag() {
         script.reboot_needed = vec![true; 3];
         script.reboot_allowed = vec![(false, false), (false, false), (false, false), (true, true)];
